@@ -298,7 +298,10 @@ Fixpoint judge_all (s : fstate) (steps obs : list val) : N :=
       match parse_fstep st with
       | Some (name, a, data, fds, regions, script) =>
           let '(v, s') := judge_step s name a data fds regions script res sent in
-          if v =? 0 then judge_all s' rs ro else v
+          let sb := script_bytes script in
+          (* accepted although the stream ended inside the reply: C08 as much as C06 *)
+          let truncated := (N.of_nat (List.length sb) <? 12) || (N.of_nat (List.length sb) <? 12 + u sb 8 4) in
+          if v =? 0 then judge_all s' rs ro else if (v =? 6) && truncated && is_ok res then 68 else v
       | None => 0
       end
   | _, _ => 5
@@ -313,6 +316,7 @@ Definition fe_spec (args : list val) : val :=
       else if v =? 2 then VS "false:C02"
       else if v =? 3 then VS "false:C03"
       else if v =? 6 then VS "false:C06"
+      else if v =? 68 then VS "false:C06,C08"
       else if v =? 7 then VS "false:C07"
       else VS "false:C06"
   | [_; _; _] => VS "false:C06"
